@@ -93,6 +93,7 @@ Definition qMat := @LMat Q _.
 Definition qAff := @LAff Q _.
 Definition qSq := @LSq Q _.
 Definition qCube := @LCube Q _.
+Definition qNSt := @LNSt Q _.
 Definition qAbs := @LAbs Q _.
 Definition qIP := @LIP Q _.
 Definition qFLin := @FLin Q _.
@@ -108,6 +109,7 @@ Definition cMat := @LMat QC _.
 Definition cAff := @LAff QC _.
 Definition cSq := @LSq QC _.
 Definition cCube := @LCube QC _.
+Definition cNSt := @LNSt QC _.
 Definition cIP := @LIP QC _.
 Definition cFLin := @FLin QC _.
 Definition cFQuad := @FQuad QC _.
